@@ -265,10 +265,9 @@ but no other interpretation is applied
         fd.close()
         contents = self._rewrite(contents)
 
-        logical = "True"                # logical condition required to execute block
-        block = []
-        ifBlock = []
-        logicalBlocks = []              # list of [logical1, action1, (logical2, action2)*, actionN]
+        block = []                      # the actions read since the last if/else/}
+        chain = None                    # the if block that we're reading (None: we're not in one), as a
+                                        # list [logical1, action1, (logical2, action2)*, actionN]
                                         # corresponding to
                                         # if(logical1) {
                                         #    action1
@@ -277,6 +276,7 @@ but no other interpretation is applied
                                         # } else {
                                         #    actionN
                                         # }
+        sawElse = False                 # have we seen chain's "} else {"?
         for lineNo, line in contents:
             #
             # Is this the start of a logical condition?
@@ -284,39 +284,23 @@ but no other interpretation is applied
             mat = re.search(r"^(?:if\s*\((.*)\)\s*{\s*|}\s*(?:(else(?:\s*if\s*\((.*)\))?)\s*{\s*)?)$", \
                                 line, re.IGNORECASE)
             if mat:
-                if block:
-                    if mat.group(2) == "else": # i.e. we saw an } else {
-                        ifBlock = block
-                    elif mat.group(3) != None: # i.e. we saw an } else if (...) {
-                        logicalBlocks += [logical, block,]
-                        block = False
-                        logical = mat.group(3)
-                    else:               # we saw an }
-                        if ifBlock:
-                            elseBlock = block
-                        else:
-                            ifBlock = block
-                            elseBlock = []
+                if chain is None:       # we're not in an if block
+                    if block:
+                        self._actions.append(["True", block, []])
+                elif mat.group(3) != None: # i.e. we saw an } else if (...) {
+                    chain += [block, mat.group(3)]
+                elif mat.group(2) != None: # i.e. we saw an } else {
+                    chain += [block]
+                    sawElse = True
+                else:                   # we saw an } (or the next if (...) { without one)
+                    chain += [block] if sawElse else [block, []]
+                    self._actions.append(chain)
+                    chain = None
 
-                        logicalBlocks += [logical, ifBlock, elseBlock,]
+                if mat.group(1) != None: # i.e. we saw an if (...) {
+                    chain, sawElse = [mat.group(1)], False
 
-                        if logicalBlocks and mat.group(1) != None:
-                            self._actions.append(logicalBlocks)
-                            ifBlock = []
-                            logicalBlocks = []
-
-                    block = []
-
-                if mat.group(1) != None:
-                    logical = mat.group(1)
-                else:
-                    if mat.group(2) == None:   # we got to }
-                        logical = "True"
-                        if logicalBlocks:
-                            self._actions.append(logicalBlocks)
-                            ifBlock = []
-                            logicalBlocks = []
-
+                block = []
                 continue
             #
             # Is line of the form action(...)?
@@ -450,10 +434,11 @@ but no other interpretation is applied
         #
         # Push any remaining actions onto current logical block
         #
-        if logicalBlocks:
-            self._actions.append(logicalBlocks)
-        if block:
-            self._actions += [(logical, block, [])]
+        if chain is not None:           # an if block without its }
+            chain += [block] if sawElse else [block, []]
+            self._actions.append(chain)
+        elif block:
+            self._actions.append(["True", block, []])
         #
         # Setup the default product, usually "toolchain"
         #
